@@ -979,8 +979,8 @@ class RegionVariable(RegionDirective, VariableDirective):
 
     def parse_optional(self, parser: Parser, state: ParsingState) -> bool:
         region = parser.parse_optional_region()
-        res = region is None
-        if res:
+        res = region is not None
+        if region is None:
             region = Region()
         self.set(state, region)
         return res
